@@ -1,6 +1,6 @@
 (* C05 — Lazy combinatorics never changes a value.  Statements only. *)
 From Coq Require Import ZArith QArith List.
-From Ka Require Import Model.Num Model.Comb Proofs.CombProofs.
+From Ka Require Import Model.Num Model.Comb Proofs.CombProofs Gen.GenLogic GenFacts.LogicFacts.
 Import ListNotations.
 
 (* For every expression tree over n!, C(n,k), integers, * and / in any nesting, and + - the six
@@ -51,6 +51,18 @@ Theorem C05_choose_is_binomial : forall n k, (k <= n)%nat ->
   choose_num (Z.of_nat n) (Z.of_nat k) = NInt (binom n k).
 Proof. exact choose_num_is_binomial. Qed.
 
+(* The tie for the range functions is by TRANSLATION, re-checked on every run: Gen/GenLogic.v is
+   regenerated from the Python AST of IntRange.is_empty / intersects / difference and of
+   lazy_factorial / lazy_choose, and the model's definitions are proved equal to it. *)
+Theorem C05_model_is_source :
+  (forall r, is_empty r = g_is_empty r) /\ (forall a b, intersects a b = g_intersects a b)
+  /\ (forall s o, difference s o = g_difference s o)
+  /\ (forall n, lazy_factorial n = g_lazy_factorial n) /\ (forall n k, lazy_choose n k = g_lazy_choose n k).
+Proof.
+  exact (conj is_empty_is_source (conj intersects_is_source (conj difference_is_source
+          (conj lazy_factorial_is_source lazy_choose_is_source)))).
+Qed.
+
 (* Non-vacuity: one tree per overlap case, zero and negative factors, division by zero. *)
 Example C05_witness :
   ceval_top (CDiv (CFact 10000) (CFact 9999)) = Ok (NInt 10000)
@@ -68,3 +80,4 @@ Print Assumptions C05_resolve_value.
 Print Assumptions C05_zero_factor.
 Print Assumptions C05_factorial_rec.
 Print Assumptions C05_choose_is_binomial.
+Print Assumptions C05_model_is_source.
